@@ -40,9 +40,12 @@ def loops_with_ops(fn, names):
 class Consume(SymRule):
     name = 'R4.chunk-loop'
 
-    def __init__(self, prog, fn, loop, rem_decl, rem_name, total, ops):
+    def __init__(self, prog, fn, loop, rem_decl, rem_name, total, ops, data_ops=None):
         SymRule.__init__(self, prog, fn)
         self.loop, self.rem_decl, self.rem_name, self.total, self.ops = loop, rem_decl, rem_name, total, dict(ops)
+        self.data_ops = dict(data_ops or {})      # operation -> index of the data pointer it consumes
+        self.loop_line = None
+        self.cursors = 0
         self.sym = None
         self.inits = []
         self.backs = 0
@@ -63,6 +66,18 @@ class Consume(SymRule):
             cur = env.get(self.rem_decl)
             sym = '%s@L%d' % (self.rem_name, node.line)
             self.sym = sym
+            self.loop_line = node.line
+            if 'iter' in ts:
+                # the data position of every operation of the iteration has moved on by the step
+                step_ = [x[1] for x in ts if isinstance(x, tuple) and len(x) == 2 and x[0] == 'step']
+                for x in ts:
+                    if isinstance(x, tuple) and len(x) == 4 and x[0] == 'cur':
+                        now = env.get(x[1])
+                        want_ = Lin({x[2]: 1}) + (step_[0] if step_ else Lin(None, 0))
+                        if now != want_:
+                            self.problem('advance', 'after handling %r bytes the data position %s becomes %r, expected %r: '
+                                         'the next step handles the wrong bytes' % (step_[0] if step_ else 0, x[3], now, want_), node)
+            ts = frozenset(x for x in ts if not (isinstance(x, tuple) and len(x) == 4 and x[0] == 'cur'))
             if cur is not None:
                 if 'iter' not in ts:
                     self.inits.append(cur)
@@ -135,6 +150,18 @@ class Consume(SymRule):
                     n, L, step[0]), ctx.node)
             if not step:
                 ts = ts | frozenset([('step', L)])
+            if n in self.data_ops and 1 + self.data_ops[n] < len(call.a):
+                a = strip(call.a[1 + self.data_ops[n]])
+                if a is not None and a.k == 'var' and a.dk in ('VarDecl', 'ParmVarDecl'):
+                    self.cursors += 1
+                    head = '%s@L%d' % (a.op, self.loop_line)
+                    v = env.get(a.decl)
+                    if v != Lin({head: 1}):
+                        self.problem('cursor', '%s() takes its data from %s, which does not move with the remainder (value '
+                                     '%r in every iteration): each step after the first handles bytes that were handled '
+                                     'before' % (n, a.op, v if v is not None else a.op), ctx.node)
+                    else:
+                        ts = ts | frozenset([('cur', a.decl, head, a.op)])
         return ts
 
     def in_loop(self, call):
@@ -145,7 +172,7 @@ class Consume(SymRule):
         return False
 
 
-def check_consume_loop(ck, prog, config, clause, fn, total_path, ops, rule_name='R4.chunk-loop'):
+def check_consume_loop(ck, prog, config, clause, fn, total_path, ops, rule_name='R4.chunk-loop', data_ops=None):
     names = [n for n, i in ops]
     loops = loops_with_ops(fn, names)
     if not loops:
@@ -165,9 +192,10 @@ def check_consume_loop(ck, prog, config, clause, fn, total_path, ops, rule_name=
             if v is not None and not (v.t or '').rstrip().endswith('*'):
                 cands.append(v)
         for v in sorted(cands, key=lambda x: x.op):
-            r = Consume(prog, fn, lp, v.decl, v.op, total, ops)
+            r = Consume(prog, fn, lp, v.decl, v.op, total, ops, data_ops)
             run_rule(prog, fn, r)
-            ok = not r.problems and r.inits and r.backs >= 1 and r.opcalls >= len(names)
+            ok = not r.problems and r.inits and r.backs >= 1 and r.opcalls >= len(names) and \
+                (not data_ops or r.cursors >= 1)
             res = (ok, r, v, lp)
             if ok:
                 best = res
